@@ -537,7 +537,9 @@ func c10Backward(u *vfUnit, part int) {
 	// only a read that starts at or beyond the end is answered with EOF. On every kind of readable handle.
 	for _, pf := range []uint32{rfRead_, rfRead_ | rfWrite_} {
 		h := open(vfPkt{Type: rfOpen, Path: "/file", Pflags: pf})
-		for _, c := range []struct{ off, l, want int }{{90, 50, 10}, {0, 200, 100}, {99, 1, 1}, {99, 2, 1}, {100, 10, -1}, {5000, 10, -1}, {50, 50, 50}} {
+		for _, c := range []struct{ off, l, want int }{{90, 50, 10}, {0, 200, 100}, {99, 1, 1}, {99, 2, 1}, {100, 10, -1}, {5000, 10, -1}, {50, 50, 50},
+			// offsets that differ from an offset inside the file only above bit 31: the handler object sees the offset of the request
+			{1 << 32, 10, -1}, {1<<32 + 90, 50, -1}, {1<<40 + 3, 1, -1}, {1<<63 - 100, 10, -1}} {
 			id++
 			r, err := rs.R.Phase(60*time.Second, vfPkt{Type: rfRead, ID: id, Handle: h, Off: uint64(c.off), Len: uint32(c.l)})
 			u.Eval(fmt.Sprintf("bwd/tail-read/%#x/%d/%d", pf, c.off, c.l))
